@@ -1,5 +1,170 @@
-From TV Require Import spec.Storage model.TensorBuild.
+(** C09 -- tensor construction and read-back are lossless for every format.
+    Model: model/TensorBuild.v (hand model of tensor.py / _cffi_ownership.py, values in Z, tied to
+    /repo by the correspondence of tools/props/C09.py).  [to_dok_spec] reads with the inverse of the
+    mode ordering (Storage.entries); [to_dok_impl] is Tensor.items as written in /repo before the
+    repair of finding K-C09-1.  [build] is from_aos without a range check (the code today);
+    [build_checked] adds the range check that finding K-C09-2 asks for.
+    [sum_at c es] = sum of the values supplied at coordinate [c] (proofs/TensorBuildLemmas.v). *)
 From Coq Require Import ZArith List. Import ListNotations.
-Theorem C09_placeholder : True.
-Proof. exact I. Qed.
-Print Assumptions C09_placeholder.
+From TV Require Import spec.Storage model.TensorBuild proofs.StorageLemmas proofs.TensorBuildLemmas
+  proofs.TensorBuildTop proofs.TensorBuildMore proofs.TensorBuildMain proofs.TensorBuildLol.
+Open Scope Z_scope.
+
+(** Every valid format (any order, any mode mix, any permutation), any dimensions (zero included),
+    any list of in-range entries (any order, duplicates, explicit zeros): construction succeeds and
+    the read-back dictionary holds exactly the pairs (c, sum of the values supplied at c) with a
+    non-zero sum, each once; format and dimensions are the given ones. *)
+Theorem C09_roundtrip : forall fmt dims es,
+  valid_formatb fmt = true -> dims_okb fmt dims = true -> all_in_rangeb dims es = true ->
+  exists t, build fmt dims es = Ok t
+    /\ (forall c v, In (c, v) (to_dok_spec t) <-> v = sum_at c es /\ v <> 0)
+    /\ NoDup (map fst (to_dok_spec t))
+    /\ format_of t = fmt /\ Storage.dims t = dims.
+Proof. exact main_roundtrip. Qed.
+Print Assumptions C09_roundtrip.
+
+(** from_dok / from_aos / from_soa / from_lol all are [build] on the entry list they denote. *)
+Theorem C09_entry_points : forall fmt dims,
+  (forall d, from_dok fmt dims d = build fmt dims d)
+  /\ (forall cs vs, length cs = length vs -> from_aos fmt dims cs vs = build fmt dims (combine cs vs))
+  /\ (forall n rows vs, (0 < n)%nat -> Forall (fun r => length r = n) rows -> length rows = length vs ->
+        from_soa fmt dims (columns n rows) vs = build fmt dims (combine rows vs))
+  /\ (forall x, from_lol fmt dims x = build fmt dims (lol_entries x [])).
+Proof. exact main_entry_points. Qed.
+Print Assumptions C09_entry_points.
+
+(** from_lol on a dense nested list of the given shape ([lol_shapeb]; zeros are skipped, cells are
+    enumerated in row-major order): the read-back dictionary is exactly the non-zero cells
+    ([lol_get c x] = x[c]). *)
+Theorem C09_from_lol_roundtrip : forall fmt dims x,
+  valid_formatb fmt = true -> dims_okb fmt dims = true -> lol_shapeb dims x = true ->
+  exists t, from_lol fmt dims x = Ok t
+    /\ (forall c v, In (c, v) (to_dok_spec t) <-> lol_get c x = Some v /\ v <> 0)
+    /\ NoDup (map fst (to_dok_spec t))
+    /\ format_of t = fmt /\ Storage.dims t = dims.
+Proof. exact main_from_lol. Qed.
+Print Assumptions C09_from_lol_roundtrip.
+
+(** The stored structure is canonical: Storage.wf_tensorb (pos starts at 0, weakly increasing, one
+    segment per parent position; crd strictly increasing inside every segment -- sorted and
+    duplicate-free -- and within the dimension; exactly one value per leaf position). *)
+Theorem C09_build_wf : forall fmt dims es,
+  valid_formatb fmt = true -> dims_okb fmt dims = true -> all_in_rangeb dims es = true ->
+  exists t, build fmt dims es = Ok t /\ wf_tensorb true t = true /\ validate t = true.
+Proof. exact main_build_wf. Qed.
+Print Assumptions C09_build_wf.
+
+(** taco_structure_to_cffi's validation accepts every well-formed stored tensor. *)
+Theorem C09_validate_accepts_build : forall t : tensor Z, wf_tensorb true t = true -> validate t = true.
+Proof. exact wf_validate. Qed.
+Print Assumptions C09_validate_accepts_build.
+
+(** to_format to any other valid format of the same order keeps dimensions and content. *)
+Theorem C09_to_format_preserves : forall fmt fmt' dims es t,
+  valid_formatb fmt = true -> valid_formatb fmt' = true ->
+  dims_okb fmt dims = true -> dims_okb fmt' dims = true -> all_in_rangeb dims es = true ->
+  build fmt dims es = Ok t ->
+  exists t', to_format_spec fmt' t = Ok t'
+    /\ (forall c v, In (c, v) (to_dok_spec t') <-> In (c, v) (to_dok_spec t))
+    /\ NoDup (map fst (to_dok_spec t'))
+    /\ format_of t' = fmt' /\ Storage.dims t' = dims /\ wf_tensorb true t' = true.
+Proof. exact main_to_format. Qed.
+Print Assumptions C09_to_format_preserves.
+
+(** ... and so does to_format of ANY well-formed stored tensor (e.g. a kernel output, which may carry
+    one scratch value: [strict] arbitrary), not only of a constructed one. *)
+Theorem C09_to_format_preserves_any_wf : forall strict (t : tensor Z) fmt',
+  wf_tensorb strict t = true -> valid_formatb fmt' = true ->
+  length (fordering fmt') = length (Storage.dims t) ->
+  exists t', to_format_spec fmt' t = Ok t'
+    /\ (forall c v, In (c, v) (to_dok_spec t') <-> In (c, v) (to_dok_spec t))
+    /\ NoDup (map fst (to_dok_spec t'))
+    /\ format_of t' = fmt' /\ Storage.dims t' = Storage.dims t /\ wf_tensorb true t' = true.
+Proof. exact main_to_format_general. Qed.
+Print Assumptions C09_to_format_preserves_any_wf.
+
+(** __getstate__ / __setstate__ give back the identical stored tensor (for every well-formed
+    tensor, in particular every constructed one). *)
+Theorem C09_pickle_preserves : forall t : tensor Z, wf_tensorb true t = true -> pickle_roundtrip t = Ok t.
+Proof. exact pickle_identity. Qed.
+Print Assumptions C09_pickle_preserves.
+
+(** A coordinate outside the dimensions is rejected -- with the range check of [build_checked]. *)
+Theorem C09_out_of_range_rejected : forall fmt dims es,
+  all_in_rangeb dims es = false -> exists err, build_checked fmt dims es = Err err.
+Proof. exact build_checked_rejects. Qed.
+Print Assumptions C09_out_of_range_rejected.
+
+(** ... and the check changes nothing for in-range input (so every theorem above holds for it). *)
+Theorem C09_range_check_conservative : forall fmt dims es,
+  all_in_rangeb dims es = true -> build_checked fmt dims es = build fmt dims es.
+Proof. exact build_checked_in_range. Qed.
+Print Assumptions C09_range_check_conservative.
+
+(** Without the range check (the code today) the full statement is false (findings/K_C09_2.v):
+    [C09_out_of_range_rejected_full].  What is exactly true: the input is rejected as soon as for one
+    entry the first level, in storage order, at which its coordinate is out of range is a COMPRESSED
+    level.  (When for every offending entry that level is dense, the entries are silently dropped:
+    known finding K-C09-2.) *)
+Definition C09_out_of_range_rejected_full : Prop := forall fmt dims es,
+  valid_formatb fmt = true -> dims_okb fmt dims = true ->
+  all_in_rangeb dims es = false -> exists err, build fmt dims es = Err err.
+
+Theorem C09_out_of_range_rejected_partial : forall fmt dims es,
+  valid_formatb fmt = true ->
+  (exists e, In e es /\
+     first_bad_compressed (combine (fmodes fmt) (level_dims_list (fordering fmt) dims))
+                          (to_level_order (fordering fmt) (fst e)) = true) ->
+  exists err, build fmt dims es = Err err.
+Proof. exact out_of_range_compressed_rejected. Qed.
+Print Assumptions C09_out_of_range_rejected_partial.
+
+Example C09_out_of_range_rejected_partial_instance :
+  let fmt := mkFormat [MDense; MCompressed] [1; 0]%nat in
+  let e : entry := ([3; 1], 5) in
+  valid_formatb fmt = true /\ In e [([0; 0], 1); e] /\ all_in_rangeb [2; 3] [([0; 0], 1); e] = false /\
+  first_bad_compressed (combine (fmodes fmt) (level_dims_list (fordering fmt) [2; 3]))
+                       (to_level_order (fordering fmt) (fst e)) = true.
+Proof. cbv zeta. repeat split; try reflexivity. right. left. reflexivity. Qed.
+
+(** Tensor.items as written before the repair of K-C09-1 reads back correctly exactly for orderings
+    that are their own inverse; the full statement [C09_roundtrip_impl_full] is refuted in
+    findings/K_C09_1.v. *)
+Definition C09_roundtrip_impl_full : Prop := forall fmt dims es,
+  valid_formatb fmt = true -> dims_okb fmt dims = true -> all_in_rangeb dims es = true ->
+  exists t, build fmt dims es = Ok t
+    /\ (forall c v, In (c, v) (to_dok_impl t) <-> v = sum_at c es /\ v <> 0).
+
+Theorem C09_roundtrip_impl_partial : forall fmt dims es,
+  valid_formatb fmt = true -> dims_okb fmt dims = true -> all_in_rangeb dims es = true ->
+  involutiveb (fordering fmt) = true ->
+  exists t, build fmt dims es = Ok t
+    /\ (forall c v, In (c, v) (to_dok_impl t) <-> v = sum_at c es /\ v <> 0)
+    /\ NoDup (map fst (to_dok_impl t))
+    /\ format_of t = fmt /\ Storage.dims t = dims.
+Proof. exact main_roundtrip_impl. Qed.
+Print Assumptions C09_roundtrip_impl_partial.
+
+Example C09_roundtrip_impl_partial_instance :
+  let fmt := mkFormat [MCompressed; MDense; MCompressed] [2; 1; 0]%nat in
+  valid_formatb fmt = true /\ dims_okb fmt [2; 3; 4] = true
+  /\ all_in_rangeb [2; 3; 4] [([1; 2; 3], 5); ([0; 0; 0], 0); ([1; 2; 3], -5)] = true
+  /\ involutiveb (fordering fmt) = true
+  /\ involutiveb [2; 0; 1]%nat = false.
+Proof. cbv zeta. repeat split; reflexivity. Qed.
+
+(** Instances of the hypotheses of the unconditional theorems (non-trivial: permuted ordering, mixed
+    modes, duplicates, an explicit zero, a zero dimension). *)
+Example C09_from_lol_roundtrip_instance :
+  let x := LList [LList [LNum 0; LNum 2; LNum 0]; LList [LNum (-1); LNum 0; LNum 4]] in
+  lol_shapeb [2; 3] x = true /\ lol_get [1; 2] x = Some 4 /\ lol_get [1; 3] x = None
+  /\ lol_entries x [] = [([0; 1], 2); ([1; 0], -1); ([1; 2], 4)].
+Proof. cbv zeta. repeat split; reflexivity. Qed.
+
+Example C09_roundtrip_instance :
+  let fmt := mkFormat [MDense; MCompressed; MCompressed] [2; 0; 1]%nat in
+  let es : list entry := [([1; 2; 3], 5); ([0; 0; 0], 0); ([1; 2; 3], -2); ([1; 0; 3], 4)] in
+  valid_formatb fmt = true /\ dims_okb fmt [2; 3; 4] = true /\ all_in_rangeb [2; 3; 4] es = true
+  /\ (exists t, build fmt [2; 3; 4] es = Ok t /\ to_dok_spec t = [([1; 0; 3], 4); ([1; 2; 3], 3)])
+  /\ dims_okb fmt [2; 0; 4] = true /\ all_in_rangeb [2; 0; 4] [] = true.
+Proof. cbv zeta. repeat split; try reflexivity. eexists. split; vm_compute; reflexivity. Qed.
